@@ -51,13 +51,3 @@ Proof.
   split; [reflexivity|]. vm_compute. discriminate.
 Qed.
 Print Assumptions C03_bloc_order_refuted.
-
-(* C03-dropna-1d-block: dropna(axis=1) on a frame that is one 1-D block returns a mask over the rows as column key *)
-Theorem C03_dropna_1d_refuted :
-  exists t : tb val, wf_tb t /\ M_dropna_keep_columns isna (existsb (fun x => x)) t
-                              <> S_dropna_keep_columns isna (existsb (fun x => x)) (flatten t).
-Proof.
-  exists [mk_block (DFlt 8) true [[VNaN; VFlt 3 2]]]. split; [repeat constructor; cbn; lia || reflexivity|].
-  vm_compute. discriminate.
-Qed.
-Print Assumptions C03_dropna_1d_refuted.
